@@ -3,7 +3,7 @@ uses the real header writer; HOOMD peers are duck-typed fakes)."""
 import numpy as np
 
 from simkit import simio
-from worlds.c18_base import Adapter, Ctor, Method, comp, method_op, pick_base, ref
+from worlds.c18_base import Adapter, Ctor, Method, bases, comp, method_op, pick_base, ref
 
 EXTRA = ("vx", "vy", "q")
 
@@ -17,6 +17,19 @@ def _gen_mk_dump(w, rng):
     s = pick_base(w, rng, lambda t: t["cell"] == "ortho" and not t.get("reader"))
     if s is None:
         return None
+    old = [p for p in _dump_files(w) if w.files[p].get("base") in w.pool]
+    if old and rng.random() < 0.35:
+        # the run is repeated: same system, same columns, same file name - other numbers in the
+        # extra columns and another line order (what a path-keyed cache would get wrong)
+        p = rng.choice(old)
+        f = w.files[p]
+        sib = [n for n in bases(w, lambda t: t["cell"] == "ortho" and not t.get("reader"))
+               if all(w.pool[n].tag[k] == w.pool[f["base"]].tag[k] for k in ("ndim", "N", "T", "K"))]
+        w.ctx.probe("dump_rewritten_compatibly")
+        pick = rng.choice(sib) if sib else f["base"]
+        return {"args": {"snapshots": ref(pick), "path": p, "nextra": f["nextra"],
+                         "order": rng.randrange(1 << 30), "coord": f["coord"]},
+                "meta": {"snaps": w.pool[pick].tag["bundle"]}}
     return {"args": {"snapshots": ref(s), "path": rng.choice(DUMPS), "nextra": rng.randint(0, 3),
                      "order": rng.randrange(1 << 30), "coord": rng.choice(["x", "x", "xu"])},
             "meta": {"snaps": w.pool[s].tag["bundle"]}}
